@@ -5,14 +5,19 @@ import common, extract
 LEAN_MODULE = "ESRVerif.Props.C12"
 LEVEL = "proof"
 LEVEL_TEXT = ("Lean proof for every expression tree (unbounded depth) over a hand model of ESRPrinter, a Lean model of the "
-              "Python expression grammar and the two symbol tables regenerated from source; model tied to the code by "
-              "string-exact correspondence, parser tied to CPython's ast.parse")
+              "Python expression grammar and the two symbol tables regenerated from source; the real-number laws are proved "
+              "for R with Mathlib (Real.rpow, zpow, Real.sqrt/exp/log/sin, abs), so the round trip is a theorem about real "
+              "values with no abstract law left, and it is stated on the printed STRING (tokenizer inverse of render proved); "
+              "model tied to the code by string-exact correspondence, parser tied to CPython's ast.parse")
 TECHNIQUE = "Lean 4 theorems + translator (symbol tables) + correspondence (printer strings, parser ASTs) + numeric round-trip oracle"
 RULE = ("one case = one distinct evaluated sympy expression (keyed by its srepr) built under x>0, a0..a2 real from ESR's vocabulary: "
         "all single-operator expressions over a 15-atom alphabet, a deterministic slice of the two-operator ones, and random trees "
         "of depth <= 6 (thorough: all unary-over-single-operator, wider binary slice, more random); non-trivial = contains an "
         "operator and is finite at >= 1 of the generic points")
-EXPLANATION = ("Lean: (a) pr e is a phrase of the Python grammar reading as `intended e` (induction on e with precedence context), "
+EXPLANATION = ("Lean: (0) tokenize(render toks) = toks for every token list with well-formed tokens and no fusing neighbours, "
+               "and pr e is such a list (phrases are operator-separated), so parseString(print e) = intended e on strings; "
+               "the fifteen RealLike laws are instantiated and proved for R (Proofs/PrinterReal.lean), giving "
+               "print_roundtrip_{gen,fit}_string_real; (a) pr e is a phrase of the Python grammar reading as `intended e` (induction on e with precedence context), "
                "(b/c) the executable parser is complete for the grammar, hence parse(pr e) = intended e and phrases are unambiguous, "
                "and evaluating `intended e` under the regenerated generation / fitting table gives the value of e when non-integer "
                "power (and, for fitting, log) arguments are non-negative. Tie: ESRPrinter().doprint == model print as strings, "
@@ -20,11 +25,18 @@ EXPLANATION = ("Lean: (a) pr e is a phrase of the Python grammar reading as `int
                "parsed by initial_sympify's table, generator.string_to_expr and Likelihood.run_sympify, compared numerically with "
                "the original expression.")
 TRUSTED = ["hand model ESRVerif/Model/Printer.lean of ESRPrinter (tied by string-exact correspondence on every generated expression)",
-           "Lean tokenizer: tokenize(render toks) = toks is checked on every printed string, not proved",
+           "Lean tokenizer vs Python's tokenizer: tokenize(render toks) = toks is PROVED (Proofs/PrinterLex.lean: tokenize_render, for tokens whose "
+           "names are identifiers, Float texts d+.d*[e[+-]d+], and no two adjacent alphanumeric tokens / '*' before '*'); that this Lean tokenizer "
+           "reads strings like CPython does is tied by the ast.parse comparison on every printed string",
            "sympy: automatic evaluation, as_ordered_terms/as_ordered_factors/as_coeff_Mul/_keep_coeff/precedence (serialised as facts, not modelled), sympify's parser = CPython grammar + auto-symbol",
            "numpy/lambdify and mpmath evaluation for the numeric oracle",
-           "abstract real-number laws (class RealLike in Proofs/Printer.lean) — the Mathlib lemmas mul_comm, mul_inv, zpow_neg, Real.rpow_neg (0<=x), abs_of_nonneg, Real.sqrt_eq_rpow"]
-ASSUMPTIONS = ["theorems assume `canonical e` (sympy's evaluated form: flattened sums, one leading numeric coefficient, integer powers distributed) "
+           "real-number semantics: the laws of class RealLike (Proofs/PrinterSem.lean) are now PROVED for R in Proofs/PrinterReal.lean "
+           "(instance realLike: Real.rpow, zpow, Real.sqrt/exp/log/sin, |.|, total division x/0 = 0; lemmas mul_inv, zpow_neg, Real.rpow_neg (0<=x, "
+           "shown necessary by rpow_neg_needs_nonneg), abs_of_nonneg, Real.sqrt_eq_rpow); what stays trusted is that sympy's Pow/Abs/log/sqrt on "
+           "admissible arguments denote these Mathlib functions (numeric oracle)"]
+ASSUMPTIONS = ["string-level theorems also assume `lexical e`: symbol names are identifiers ([A-Za-z_][A-Za-z0-9_]*) and Float texts have the shape "
+               "d+.d*[(e|E)[+-]d+] (what sympy prints); the check only admits such expressions (symbols x, a0..a2; floats matching PLAIN_FLOAT)",
+               "theorems assume `canonical e` (sympy's evaluated form: flattened sums, one leading numeric coefficient, integer powers distributed) "
                "and `Adm` (symbols are not table functions; bases of non-integer powers >= 0; for the fitting table also log arguments >= 0); "
                "one shape sympy does produce is outside `canonical`: a product nested in a product with negative coefficient "
                "(Abs(a0**3)**(-3/2) -> (a0**-4*Abs(a0))*Abs(a0)**(-3/2)); it is covered by the string/AST correspondence and the numeric oracle only",
@@ -37,6 +49,7 @@ MODELLED = ["ESRPrinter.parenthesize", "ESRPrinter.stringify", "ESRPrinter._prin
             "ESRPrinter._print_Symbol"]
 
 PLAIN_FLOAT = re.compile(r"^\d+\.\d*$")
+IDENT = re.compile(r"^[A-Za-z_][A-Za-z0-9_]*$")          # `lexical` hypothesis of the string-level theorems (ASCII identifiers)
 NPOINTS = 5
 
 # --------------------------------------------------------------------------------------
@@ -155,6 +168,8 @@ def serialise(e, top=True):
             raise OutOfScope("bare-float")
         return ["F", "1" if e < 0 else "0", float_mag(e)]
     if e.is_Symbol:
+        if not IDENT.match(e.name):
+            raise OutOfScope("symbol-name")
         return ["S", e.name]
     if isinstance(e, (sp.Abs, sp.exp, sp.log, sp.sin)):
         if len(e.args) != 1:
